@@ -104,6 +104,9 @@ func main() {
 		p.gen(g)
 		g.w.Flush()
 	case "run":
+		if ambientHook != nil {
+			ambientHook(os.Args[2], "process:"+os.Getenv("VERIF_SEED"), true)
+		}
 		if p.init != nil {
 			p.init()
 		}
@@ -173,7 +176,13 @@ func runConcurrent(p *prop, in *bufio.Reader, out *bufio.Writer) {
 	out.Flush()
 }
 
+// set by ambient.go (left nil when that file does not compile against the current source)
+var ambientHook func(pid, line string, start bool)
+
 func safeRun(p *prop, line string) (res string) {
+	if ambientHook != nil {
+		ambientHook(os.Args[2], line, false)
+	}
 	defer func() {
 		if e := recover(); e != nil {
 			res = "panic"
